@@ -135,6 +135,11 @@ def check_layout(c):
         res.check(info.get('nswp') == N and len(snap.Y) == N and info.get('stop') == 'nswp', 'info', cfg,
                   lambda: 'info nswp=%r stop=%r, %d callback calls, requested %d' % (info.get('nswp'), info.get('stop'), len(snap.Y), N), tags)
         res.check(_rel(snap.Y[-1], Y) == 0 if snap.Y else False, 'cb.last_state', cfg, 'callback state differs from the result', tags)
+        # the observer must not matter: without the harness's callback the same tensor and the same report come back
+        Yq, iq = _als(pts, y, Y0, N, lamb, w)
+        dk = [k for k in ('nswp', 'stop', 'e', 'e_vld') if repr(iq.get(k)) != repr(info.get(k))]
+        res.check(ref.core_bytes(Yq) == ref.core_bytes(Y) and not dk, 'no_callback.same', cfg,
+                  lambda: 'without a callback the run differs (info fields %s)' % dk, tags)
         # descent
         Js = [objective(S, pts, y, lamb, w) for S in [Y0] + snap.Y]
         for s in range(len(Js) - 1):
